@@ -1,7 +1,7 @@
 --------------------------- MODULE ExactObjective ---------------------------
 (***************************************************************************)
 (* Exact marginal log likelihood and leave-one-out objective (property     *)
-(* C02), four parts selected by Part:                                      *)
+(* C02), parts selected by Part:                                           *)
 (*                                                                         *)
 (*  "assembly" objective = (main term + log prior density of every         *)
 (*             parameter with a registered prior + every registered added  *)
@@ -42,6 +42,32 @@
 (*             x batch x prior assignment x objective x solver setting x   *)
 (*             registration form x history of the evaluated object)        *)
 (*             with the terms the definition contains in each cell.        *)
+(*                                                                         *)
+(*  "zoo"      (a) the NOISE STRUCTURE of the likelihood (homoskedastic,     *)
+(*             fixed, fixed + learned) x what is forwarded through         *)
+(*             objective(output, target, *params, **kwargs): the keyword   *)
+(*             noise= (given, as long as the training data / not given)    *)
+(*             and the train inputs as *params.  The definition says which *)
+(*             components S of log N(y; m, K + S) is the sum of (the       *)
+(*             call-time noise REPLACES the stored / the learned           *)
+(*             homoskedastic noise, the learned second noise of a fixed    *)
+(*             noise likelihood is always added); the transcribed branch   *)
+(*             order of FixedGaussianNoise.forward /                       *)
+(*             FixedNoiseGaussianLikelihood._shaped_noise_covar /          *)
+(*             HomoskedasticNoise.forward must give the same components    *)
+(*             (ZooNoiseOK; with the slips "stored_first" /                *)
+(*             "second_sees_noise" TLC must find noise= on a fixed noise   *)
+(*             likelihood).                                                *)
+(*             (b) every library class constructed with *_prior arguments  *)
+(*             (ZooClasses: kernels with one, two, three prior arguments,  *)
+(*             ScaleKernel, ConstantMean, the likelihoods): the prior      *)
+(*             terms of the definition are listed by the PUBLIC parameter  *)
+(*             property (dotted name from the model) and every parameter   *)
+(*             of the model sits at a value of its own (rank, pairwise     *)
+(*             distinct: ZooDistinct) so that a registered closure that    *)
+(*             reads a sibling parameter of the same shape changes the     *)
+(*             objective (ZooPriorsOK; with the slip "getter_reads_sibling"*)
+(*             TLC must find a class with two prior arguments).            *)
 (*                                                                         *)
 (* Repairs = the repairs present in the tree under test ({} is HEAD).      *)
 (* "prior_memo": named_priors yields a registered prior once however many  *)
@@ -91,7 +117,8 @@ EXTENDS LinAlg
 
 CONSTANTS Part, Repairs, Archs, Batches, Ns, MaxModels, Instances,
           Extras, PatternBatches, DivSlips,                        \* target batch shapes (parts "assembly", "lattice")
-          RegMenu, HistLen, MaxObjs, MaxGen, SetHows, Slips      \* part "history"
+          RegMenu, HistLen, MaxObjs, MaxGen, SetHows, Slips,     \* part "history"
+          ZooKernels, NoiseKernels, Rots, ZooSlips               \* part "zoo"
 
 VARIABLES c,       \* the enumerated configuration / instance / cell
           out      \* what the spec says must be observed (+ what the transcribed code computes)
@@ -449,6 +476,88 @@ LatticeOK ==
      /\ out.tasks \in {1, 2} /\ \A i \in 1..Len(out.terms) : out.terms[i][2] # "none"
      /\ Compatible(c.B, c.tb) /\ Compatible(c.B, out.shape) /\ Compatible(c.tb, out.shape) /\ Len(out.shape) = IMax(Len(c.B), Len(c.tb))
 
+\* ============================ part "zoo" =======================================================
+\* cell z: kernel (library class, under a ScaleKernel), lik (homo | fixed | fixedlearn), kw ("none" | "noise": noise=v is given
+\*   to the objective, v has one entry per training point), args ("none" | "inputs": the train inputs are passed as *params),
+\*   B (batch shape of every module, of the data and of v), n (training points), obj, rot (rotation of the prior families)
+ZooClasses == {"rbf", "matern", "rq", "pp", "periodic", "cosine", "linear", "poly", "constk", "cyl", "arc"}
+\* the public parameter properties of the class that have a *_prior constructor argument (in the constructor's order; a dotted
+\* name goes through a sub-module) and those that have none
+ZooPriorParams(k) ==
+  CASE k \in {"rbf", "matern", "rq", "pp"} -> <<"lengthscale">>
+    [] k = "periodic" -> <<"lengthscale", "period_length">>
+    [] k = "cosine"   -> <<"period_length">>
+    [] k = "linear"   -> <<"variance">>
+    [] k = "poly"     -> <<"offset">>
+    [] k = "constk"   -> <<"constant">>
+    [] k = "cyl"      -> <<"angular_weights", "alpha", "beta", "radial_base_kernel.lengthscale">>
+    [] k = "arc"      -> <<"lengthscale", "angle", "radius">>
+ZooFreeParams(k) == IF k = "rq" THEN <<"alpha">> ELSE <<>>
+ZooLikParams(lik) == CASE lik = "homo" -> <<"likelihood.noise">> [] lik = "fixedlearn" -> <<"likelihood.second_noise">> [] OTHER -> <<>>
+Prefixed(pre, names) == [i \in 1..Len(names) |-> pre \o names[i]]
+\* every constrained parameter of the model by public name, parameters WITH a prior argument first
+ZooWithPrior(z) ==
+  Prefixed("covar_module.base_kernel.", ZooPriorParams(z.kernel)) \o <<"covar_module.outputscale", "mean_module.constant">> \o ZooLikParams(z.lik)
+ZooParams(z) == ZooWithPrior(z) \o Prefixed("covar_module.base_kernel.", ZooFreeParams(z.kernel))
+\* the value of a parameter is identified by its rank; the replay maps ranks to pairwise distinct constrained values
+ZooRank(z, i) == i
+ZooFams == <<"gamma", "normal", "lognormal">>
+ZooFam(z, i) == ZooFams[((i - 1 + z.rot) % 3) + 1]
+
+\* ---- noise components of S (how many times each enters the sum)
+NoNoise == [call |-> 0, stored |-> 0, learned |-> 0, second |-> 0]
+\* definition: a call-time noise is the observation noise of that evaluation; it replaces the stored (fixed) / the learned
+\* (homoskedastic) noise; the learned additional noise of a fixed noise likelihood is added in either case
+DefNoise(z) ==
+  LET first == IF z.kw = "noise" THEN "call" ELSE IF z.lik = "homo" THEN "learned" ELSE "stored"
+      a == [NoNoise EXCEPT ![first] = 1]
+  IN IF z.lik = "fixedlearn" THEN [a EXCEPT !.second = 1] ELSE a
+\* code: FixedGaussianNoise.forward(*params, shape, noise=None): m = number of points of the evaluated distribution (from
+\* shape or from params[0]), ns = length of the stored noise
+FixedForward(kw, m, ns, slips) ==
+  IF "stored_first" \in slips
+  THEN (IF m = ns THEN "stored" ELSE IF kw = "noise" THEN "call" ELSE "zero")
+  ELSE (IF kw = "noise" THEN "call" ELSE IF m = ns THEN "stored" ELSE "zero")
+\* HomoskedasticNoise.forward: if "noise" in kwargs: that noise is used directly
+HomoForward(kw) == IF kw = "noise" THEN "call" ELSE "learned"
+Bump(a, f) == IF f = "zero" THEN a ELSE [a EXCEPT ![f] = @ + 1]
+CodeNoise(z, slips) ==
+  \* the objective is evaluated on the training data: the evaluated distribution has as many points as the stored noise
+  LET m == z.n ns == z.n
+  IN IF z.lik = "homo" THEN Bump(NoNoise, HomoForward(z.kw))
+     ELSE LET a == Bump(NoNoise, FixedForward(z.kw, m, ns, slips))
+          IN IF z.lik # "fixedlearn" THEN a
+             \* _shaped_noise_covar hides the noise keyword from the second noise model (slip: it does not)
+             ELSE IF "second_sees_noise" \in slips /\ z.kw = "noise" THEN Bump(a, "call") ELSE Bump(a, "second")
+
+\* ---- prior terms: <<public name, family, rank of the value the density is taken at>>
+ZooTerms(z) == [i \in 1..Len(ZooWithPrior(z)) |-> <<ZooWithPrior(z)[i], ZooFam(z, i), ZooRank(z, i)>>]
+\* code: prior.log_prob(closure(module)); the closure a constructor registers reads the parameter it names (slip: the closure
+\* of the second, third .. prior argument of a class reads the parameter of the argument before it)
+CodeReads(z, slips) ==
+  LET np == Len(ZooPriorParams(z.kernel))
+  IN [i \in 1..Len(ZooWithPrior(z)) |-> IF "getter_reads_sibling" \in slips /\ i > 1 /\ i <= np THEN ZooRank(z, i - 1) ELSE ZooRank(z, i)]
+
+ZooPlain(z) == z.lik = "homo" /\ z.kw = "none" /\ z.args = "none"
+ZooCellOK(z) ==
+  /\ z.obj = "loo" => z.kw = "none"               \* LeaveOneOutPseudoLikelihood.forward(function_dist, target, *params) takes no keywords
+  /\ ~ZooPlain(z) => (z.kernel \in NoiseKernels /\ z.rot = 0)
+ZooCells ==
+  {z \in [kernel : ZooKernels, lik : {"homo", "fixed", "fixedlearn"}, kw : {"none", "noise"}, args : {"none", "inputs"},
+          B : {<<>>, <<2>>}, n : Ns, obj : {"mll", "loo"}, rot : Rots] : ZooCellOK(z)}
+ZooOut(z) ==
+  [params |-> [i \in 1..Len(ZooParams(z)) |-> <<ZooParams(z)[i], ZooRank(z, i)>>],
+   terms |-> ZooTerms(z), reads |-> CodeReads(z, ZooSlips),
+   noise |-> DefNoise(z), codeNoise |-> CodeNoise(z, ZooSlips),
+   shape |-> z.B, div |-> z.n, hc |-> IF z.obj = "loo" THEN -1 ELSE 0]
+ZooNoiseOK == (Part = "zoo" /\ out # <<>>) => (out.codeNoise = out.noise /\ out.noise.call + out.noise.stored + out.noise.learned = 1)
+ZooPriorsOK == (Part = "zoo" /\ out # <<>>) => \A i \in 1..Len(out.terms) : out.reads[i] = out.terms[i][3]
+\* every parameter of the model has a value of its own, and every term names a parameter of the model
+ZooDistinct ==
+  (Part = "zoo" /\ out # <<>>) =>
+     /\ \A i, j \in 1..Len(out.params) : i # j => (out.params[i][1] # out.params[j][1] /\ out.params[i][2] # out.params[j][2])
+     /\ \A i \in 1..Len(out.terms) : \E j \in 1..Len(out.params) : out.params[j][1] = out.terms[i][1] /\ out.params[j][2] = out.terms[i][3]
+
 \* ============================ part "history" ===================================================
 \* configuration h: arch (plain / shared), B, n, reg[k] in none | ctor | closure | name  (how the prior of slot k is registered)
 \* state: h, objs (the model objects made so far: generation of the hyperparameter values + the closure of every prior),
@@ -534,12 +643,14 @@ Domain ==
     [] Part = "sum"      -> SumConfigs
     [] Part = "rational" -> Instances
     [] Part = "lattice"  -> Cells
+    [] Part = "zoo"      -> ZooCells
     [] Part = "history"  -> HistDomain
 OutOf(x) ==
   CASE Part = "assembly" -> AsmOut(x)
     [] Part = "sum"      -> SumOut(x)
     [] Part = "rational" -> RatOut(x)
     [] Part = "lattice"  -> CellOut(x)
+    [] Part = "zoo"      -> ZooOut(x)
     [] Part = "history"  -> HistOut(x)
 
 Init == c \in Domain /\ out = IF Part = "history" THEN HistOut(c) ELSE <<>>
